@@ -41,9 +41,6 @@ func cwRace(in json.RawMessage, res *vh.Result) error {
 	}
 	cwCfgChangeProbe(res)
 	cwClosedWriterCheck(res)
-	if err := cwResubInflightProbe(res); err != nil {
-		res.Extra["resub_inflight_probe"] = map[string]any{"error": err.Error()}
-	}
 	if err := cwBatchingOffProbe(res); err != nil {
 		res.Extra["batching_off_probe"] = map[string]any{"error": err.Error()}
 	}
@@ -61,6 +58,10 @@ func cwRace(in json.RawMessage, res *vh.Result) error {
 			mode := map[string]string{"plain": "normal", "pos": "latest"}[variant]
 			if err := cwClientLeaveOrder(mode, round, res); err != nil {
 				res.Drift("C13", fmt.Sprintf("client join/leave order %s: %v", mode, err), nil)
+				res.Done(1, 0)
+			}
+			if err := cwClientResubInflight(variant, round, res); err != nil {
+				res.Drift("C13", fmt.Sprintf("client resubscribe window with an in-flight broadcast %s: %v", variant, err), nil)
 				res.Done(1, 0)
 			}
 			if err := cwClientResub(variant, round, res); err != nil {
@@ -683,15 +684,15 @@ func cwClientLeaveOrder(mode string, round int, res *vh.Result) error {
 	return nil
 }
 
-// cwResubInflightProbe (evidence; spec/ChanWriter resub_inflight_witness.cfg): the window the repaired unsubscribe still
-// leaves. A broadcast passed the subscribed check (parked in the LogHandler); a server-side Unsubscribe deletes
+// cwClientResubInflight (spec/ChanWriter resub_inflight_witness.cfg; KNOWN FINDING of C13, signature
+// resub:inflight-broadcast-into-new-subscription:<kind>): the window the repaired unsubscribe still leaves. A broadcast passed the subscribed check (parked in the LogHandler); a server-side Unsubscribe deletes
 // c.channels[ch], drops the channel writer and is parked at Broker.PublishLeave; the broadcast is released: its Add
 // re-creates the writer and buffers the push; the client subscribes again; the unsubscribe is released: its second
 // delWriter is skipped because the channel is subscribed again; MaxDelay later the old push is flushed into the new
 // subscription.
-func cwResubInflightProbe(res *vh.Result) error {
+func cwClientResubInflight(variant string, round int, res *vh.Result) error {
 	const d = 300 * time.Millisecond
-	ch := fmt.Sprintf("resubfl_%d", vh.Seed())
+	ch := fmt.Sprintf("resubfl_%s_%d_%d", variant, vh.Seed(), round)
 	var logArmed, leaveArmed atomic.Bool
 	logGate, leaveGate := cl.NewGate(), cl.NewGate()
 	env, err := cl.NewEnv(centrifuge.Config{
@@ -720,7 +721,7 @@ func cwResubInflightProbe(res *vh.Result) error {
 	}
 	env.Node.SetBroker(gb)
 	env.OnSubscribe = func(_ *centrifuge.Client, _ centrifuge.SubscribeEvent, cb centrifuge.SubscribeCallback) {
-		cb(centrifuge.SubscribeReply{Options: centrifuge.SubscribeOptions{EmitJoinLeave: true}}, nil)
+		cb(centrifuge.SubscribeReply{Options: centrifuge.SubscribeOptions{EmitJoinLeave: true, EnablePositioning: variant == "pos"}}, nil)
 	}
 	if err := env.Run(); err != nil {
 		return err
@@ -747,7 +748,14 @@ func cwResubInflightProbe(res *vh.Result) error {
 	}
 	logArmed.Store(true)
 	pubDone := make(chan struct{})
-	go func() { defer close(pubDone); _, _ = env.Node.Publish(ch, []byte(`{"n":1}`)) }()
+	go func() {
+		defer close(pubDone)
+		var opts []centrifuge.PublishOption
+		if variant == "pos" {
+			opts = append(opts, centrifuge.WithHistory(10, time.Minute))
+		}
+		_, _ = env.Node.Publish(ch, []byte(`{"n":1}`), opts...)
+	}()
 	if !logGate.WaitArrived(3 * time.Second) {
 		return fmt.Errorf("broadcast did not reach the trace log entry")
 	}
@@ -777,10 +785,21 @@ func cwResubInflightProbe(res *vh.Result) error {
 			old = i
 		}
 	}
-	res.Extra["resub_inflight_probe"] = map[string]any{
-		"schedule": "subscribe (generation 1); broadcast of publication 1 passes the subscribed check, parked in LogHandler; server-side Unsubscribe: c.channels[ch] deleted + delWriter, parked at Broker.PublishLeave; broadcast released: Add re-creates the writer, buffers 1 (MaxDelay 300 ms); client subscribes again (reply 2); Unsubscribe released: second delWriter skipped (resubscribed); timer flush",
-		"frames":   cl.DescribeAll(frames),
-		"old_publication_delivered_after_second_subscribe_reply": reply2 >= 0 && old > reply2,
+	schedule := "subscribe (generation 1); broadcast of publication 1 passes the subscribed check, parked in LogHandler; server-side Unsubscribe: c.channels[ch] deleted + delWriter, parked at Broker.PublishLeave; broadcast released: Add re-creates the writer, buffers 1 (MaxDelay 300 ms); client subscribes again (reply 2); Unsubscribe released: second delWriter skipped (resubscribed); timer flush"
+	desc := cl.DescribeAll(frames)
+	replay := map[string]any{"variant": variant, "max_delay_ms": d.Milliseconds(), "schedule": schedule, "frames": desc}
+	if reply2 < 0 {
+		return fmt.Errorf("second subscribe reply not found in %v", desc)
 	}
+	if old > reply2 {
+		res.Violate("C13", "resub:inflight-broadcast-into-new-subscription:"+variant,
+			fmt.Sprintf("%s, broadcast to the first subscription and buffered by the per-channel writer after unsubscribe had dropped that writer, was delivered after the subscribe reply of the next subscription (kind %s): %v; schedule: %s",
+				cl.Describe(frames[old]), variant, desc, schedule), replay)
+		res.Done(1, 0)
+		return nil
+	}
+	res.Distinct("resub-inflight:" + variant)
+	res.Sample(replay)
+	res.Done(1, 1)
 	return nil
 }
